@@ -214,12 +214,14 @@ def _site_taint(ctx: RuleCtx, c: ClassInfo, entry: FuncInfo, s: WriteSite, attr_
     return lvl
 
 
-def _lazy_latches(ctx: RuleCtx, c: ClassInfo, entry: FuncInfo, col: Collector, label: str):
+def _lazy_latches(ctx: RuleCtx, c: ClassInfo, entry: FuncInfo, col: Collector, label: str, only: Optional[str] = None):
     af = _af(ctx, c)
     m = ctx.model
     taints = _attr_taints(ctx, c, entry)
     attrs = sorted(af.may_write(entry) - af.must_write(entry))
     for attr in attrs:
+        if only is not None and attr != only:
+            continue
         cls_, detail, lazy = classify_attr(ctx, c, entry, attr)
         if not lazy:
             continue
